@@ -83,7 +83,7 @@ def c15_release_exec(reqs):
 
 EXTERNAL_THREADS['thrrel'] = c15_release_exec
 _old_gens = PROPS_THREADS['C15']['gens']
-PROPS_THREADS['C15']['gens'] = lambda seed, th: _old_gens(seed, th) + [lambda: c15_release_exec(['thrrel nochrony', 'thrrel silent', 'thrrel pollerdies'])]
+PROPS_THREADS['C15']['gens'] = lambda seed, th: _old_gens(seed, th) + [lambda: c15_release_exec(['thrrel nochrony', 'thrrel silent', 'thrrel pollerdies', 'thrrel rofs', 'thrrel noperm'])]
 _old_rel = PROPS_THREADS['C15']['relevant']
 PROPS_THREADS['C15']['relevant'] = lambda c: _old_rel(c) or c.req.startswith('thrrel')
-PROPS_THREADS['C15']['rule'] += " || plus two process-level scenarios with the RELEASE binary built from the working tree (no hooks): /run/clockbound is a regular file, so the writer thread panics at start-up; chronyd absent, or its socket present but silent (each query takes its full 3 x 1 s); the process must exit within 6 s; `pollerdies`: a stand-in chronyd (harness subcommand `fakechronyd`) reports the PHC as reference, the daemon gets the PHC options and the PHC's error-bound attribute (tmpfs over /sys/bus/pci/devices in the private namespace) reads N/A, so the POLLER panics at its first poll while the writer is healthy: the process must exit"
+PROPS_THREADS['C15']['rule'] += " || plus two process-level scenarios with the RELEASE binary built from the working tree (no hooks): /run/clockbound is a regular file, so the writer thread panics at start-up; chronyd absent, or its socket present but silent (each query takes its full 3 x 1 s); the process must exit within 6 s; `pollerdies`: a stand-in chronyd (harness subcommand `fakechronyd`) reports the PHC as reference, the daemon gets the PHC options and the PHC's error-bound attribute (tmpfs over /sys/bus/pci/devices in the private namespace) reads N/A, so the POLLER panics at its first poll while the writer is healthy: the process must exit; `rofs` / `noperm`: /run resp. /run/clockbound is read-only, so the writer cannot create its segment (EROFS): the process must exit within 6 s"
